@@ -270,6 +270,16 @@ class Printer:
         else:
             ln = self._line(depth, f"type {a.name} = {tt}{self._semi()}")
             self._mark(a, ln, a.name, self.indent * depth + 5)
+        # references inside the aliased type
+        line = self.lines[ln - 1]
+        t = a.type
+        tstart = line.index(tt, (self.indent * depth + 8) if a.typedef_syntax else line.index("=")) + 1
+        el = t.elem if isinstance(t, Arr) else t
+        if isinstance(el, Ref) and el.forced_path is None:
+            self.refs.append((ln, tstart, self.path_for(el.target), el.target))
+        if isinstance(t, Arr) and t.cap_const is not None and t.cap_text is None:
+            txt = self.path_for(t.cap_const)
+            self.refs.append((ln, line.index(txt, line.index("[", tstart)) + 1, txt, t.cap_const))
         self.chain[-1].declare(a.name, a)
 
     def emit_enum(self, e: Enum, depth: int) -> None:
